@@ -147,22 +147,37 @@ func c09StalledBodies(r *rep.Reporter) {
 				}
 				return n
 			}
+			nFinished := func() int {
+				n := 0
+				for _, f := range finished {
+					if f {
+						n++
+					}
+				}
+				return n
+			}
 			blocked := ""
 			if !waitAll(3 * time.Second) {
-				// not all back: look at what they are doing, twice
-				p1 := parkedProbes()
+				// not all back: look at what they are doing, three times; a verdict needs probes
+				// parked on a lock every time and not one request answered in between
+				p1, f1 := parkedProbes(), nFinished()
 				if !waitAll(4 * time.Second) {
-					p2 := parkedProbes()
-					if p1 > 0 && p2 > 0 {
-						var names []string
-						for i, p := range probes {
-							if !finished[i] {
-								names = append(names, p.name)
+					p2, f2 := parkedProbes(), nFinished()
+					if p1 > 0 && p2 > 0 && f1 == f2 && !waitAll(15*time.Second) {
+						p3, f3 := parkedProbes(), nFinished()
+						if p3 > 0 && f3 == f2 {
+							var names []string
+							for i, p := range probes {
+								if !finished[i] {
+									names = append(names, p.name)
+								}
 							}
+							blocked = strings.Join(names, ", ")
 						}
-						blocked = strings.Join(names, ", ")
-					} else {
-						// slow, but not waiting for a lock: give it time, decide nothing from the clock
+					}
+					if blocked == "" {
+						// slow, but making progress or not waiting for a lock: give it time,
+						// decide nothing from the clock
 						waitAll(5 * time.Minute)
 					}
 				}
@@ -170,7 +185,7 @@ func c09StalledBodies(r *rep.Reporter) {
 			runtime.Gosched()
 			r.Distinct(fmt.Sprintf("%s|stall|%s|%v", kind, mode, blocked != ""))
 			if blocked != "" {
-				r.Violation(sig("C09", backendClass(kind), "blocked-behind-stalled-body", mode), fmt.Sprintf("%s: while a client is stalled in the middle of the body of %s %s, these correct requests do not return and their goroutines are parked on a lock in two dumps: %s", kind, aReq.Method, aReq.Path, blocked),
+				r.Violation(sig("C09", backendClass(kind), "blocked-behind-stalled-body", mode), fmt.Sprintf("%s: while a client is stalled in the middle of the body of %s %s, these correct requests do not return and none of them was answered within 22 s and their goroutines are parked on a lock in three dumps: %s", kind, aReq.Method, aReq.Path, blocked),
 					map[string]interface{}{"backend": kind, "stalled_request": reqDesc(aReq), "blocked": blocked})
 			} else {
 				r.Count("requests_answered_during_stalled_body", len(probes))
